@@ -305,7 +305,7 @@ func composeStack(stack []mwSpec) func(mocrelay.Handler) mocrelay.Handler {
 // ---- generators
 
 func genMwMsg(r *Rng, g *EvGen, stack []mwSpec, nowSec int64) mocrelay.ClientMsg {
-	subs := []string{"s", "t", "uu", "vvvv", "wwwwwwww"}
+	subs := []string{"s", "t", "uu", "vvvv", "wwwwwwww", ""} // the empty id is legal on the wire
 	switch r.Intn(10) {
 	case 0, 1, 2, 3:
 		e := g.Event()
@@ -377,6 +377,9 @@ func genMwMsg(r *Rng, g *EvGen, stack []mwSpec, nowSec int64) mocrelay.ClientMsg
 			}
 		}
 		sub := pick(r, subs)
+		if r.P(12) {
+			sub = "" // the empty id is an id like any other: it takes a slot, it is closed by CLOSE ""
+		}
 		if r.P(30) {
 			return &mocrelay.ClientCountMsg{SubscriptionID: sub, ReqFilters: fs}
 		}
